@@ -101,7 +101,7 @@ impl FromStr for MatchResult {
             let mut pos = start_pos;
 
             while pos < s.len() {
-                if s[pos..].starts_with(';') {
+                if s.as_bytes()[pos] == b';' {
                     let value = &s[start_pos..pos];
                     return Ok((value, pos + 1));
                 }
@@ -160,13 +160,13 @@ impl FromStr for MatchResult {
                     let mut i = pos + "Transactions:[".len();
 
                     while i < s.len() && bracket_depth > 0 {
-                        if s[i..].starts_with(']') {
+                        if s.as_bytes()[i] == b']' {
                             bracket_depth -= 1;
                             if bracket_depth == 0 {
                                 break;
                             }
                             i += 1;
-                        } else if s[i..].starts_with('[') {
+                        } else if s.as_bytes()[i] == b'[' {
                             bracket_depth += 1;
                             i += 1;
                         } else {
@@ -195,13 +195,13 @@ impl FromStr for MatchResult {
                     let mut i = pos + 1;
 
                     while i < s.len() && bracket_depth > 0 {
-                        if s[i..].starts_with(']') {
+                        if s.as_bytes()[i] == b']' {
                             bracket_depth -= 1;
                             if bracket_depth == 0 {
                                 break;
                             }
                             i += 1;
-                        } else if s[i..].starts_with('[') {
+                        } else if s.as_bytes()[i] == b'[' {
                             bracket_depth += 1;
                             i += 1;
                         } else {
